@@ -18,6 +18,7 @@ RULE = (
     "(own DOP853 integration, rtol 1e-5), and XIR, XIF, alphaqed must be the card's. Distinct = (mode, scheme, PTO, has XS, xi class); "
     "non-trivial = a non-zero prediction was compared (contract/linear) or a coupling interval was integrated (theory)."
     " In the theory mode half of the cases first apply the same output under a twin card differing in ONE coupling field (nfref, HQ, alphas, Qref, masses, thresholds, PTO, FNS, NfFF, MaxNfAs); one case in five uses an x-by-x lattice with shared Q2 values."
+    " Half of the theory-mode cards put the matching scales away from the masses (kcThr, kbThr, ktThr in 0.5..3) and the coupling is compared with eko configured from the card on both sides of every (k m)^2 and inside the windows between m^2, k m^2 and (k m)^2."
 )
 ASSUMPTIONS = ["ModEv=EXA (exact solution of the RGE) for the RGE oracle; alpha_s thresholds and matching are eko's and only checked away from thresholds"]
 RTOL = 1e-12
@@ -65,6 +66,9 @@ def cases(tier, rng):
         if mode == "theory":
             c["theory"].update(alphas=float(rng.uniform(0.10, 0.13)), Qref=float(cards.pick(rng, [91.2, 50.0, 10.0, 3.0])), XIR=cards.logu(rng, 0.5, 2.0), XIF=cards.logu(rng, 0.5, 2.0),
                                alphaqed=float(rng.uniform(0.007, 0.008)), ModEv="EXA")  # fmt: skip
+            if i % 4 < 2:
+                # matching scales away from the masses (k != 1): the flavour number of the coupling changes at (k m)^2, not at m^2 or k m^2
+                c["theory"].update({f"k{q}Thr": float(cards.pick(rng, [0.5, 0.7, 1.4, 2.0, 3.0])) for q in "cbt"})
             th = cards.theory(**c["theory"])
             # nfref consistent with the scheme at Qref - or, in a third of the cases, the threshold count at Qref whatever the scheme,
             # so that the coupling has to be carried across matching scales; both heavy-quark mass schemes
@@ -308,7 +312,12 @@ def run_case(case):
             probes["eko_reference_failed"] = probes.get("eko_reference_failed", 0) + 1
         if ref_as is not None:
             classes.add("eko-reference")
-            for mu in sorted({float(np.sqrt(p_["Q2"]) * th["XIR"]) for p_ in case["points"]} | {1.3, 3.0, 20.0, 300.0}):
+            # (besides the points' own scales: the middle of every window between m^2, k m^2 and (k m)^2 and both sides of each matching scale)
+            extra_mu = set()
+            for q in "cbt":
+                m_, k_ = th["m" + q], th["k" + q + "Thr"]
+                extra_mu |= {m_ * k_ * 0.995, m_ * k_ * 1.005, m_ * k_**0.75, m_ * k_**0.25 if k_ != 1 else m_ * 1.1}
+            for mu in sorted({float(np.sqrt(p_["Q2"]) * th["XIR"]) for p_ in case["points"]} | {1.3, 3.0, 20.0, 300.0} | {float(v) for v in extra_mu if 1.2 < v < 1e4}):
                 try:
                     a_code, a_ref = als(mu), ref_as(mu)
                 except Exception:  # noqa: BLE001
@@ -316,7 +325,7 @@ def run_case(case):
                 mg, d = run.cmp(a_code, a_ref, abs(a_ref), 1e-9)
                 compared += 1
                 if mg > 1:
-                    viol.append(dict(sig=f"alphas-card|{th.get('HQ','POLE')}|{'zm' if th['FNS']=='ZM-VFNS' else 'ffn'}", what=f"alpha_s({mu:.5g}) built by apply_pdf = {a_code:.12g}; eko configured from the same card (HQ={th.get('HQ')}, {th['FNS']}, NfFF={th['NfFF']}, PTO={th['PTO']}, Qref={th['Qref']}, nfref={th['nfref']}, ModEv={th['ModEv']}) gives {a_ref:.12g}"))
+                    viol.append(dict(sig=f"alphas-card|{th.get('HQ','POLE')}|{'zm' if th['FNS']=='ZM-VFNS' else 'ffn'}", what=f"alpha_s({mu:.5g}) built by apply_pdf = {a_code:.12g}; eko configured from the same card (HQ={th.get('HQ')}, {th['FNS']}, NfFF={th['NfFF']}, PTO={th['PTO']}, Qref={th['Qref']}, nfref={th['nfref']}, ModEv={th['ModEv']}, k=({th['kcThr']},{th['kbThr']},{th['ktThr']})) gives {a_ref:.12g}"))
                     break
                 margin = max(margin, mg)
         # coupling: reference value and RGE
